@@ -721,6 +721,11 @@ def rule_thread_local_access(check, rule):
                 continue
             for meth in ci.methods.values():
                 for node in ast.walk(meth.node):
+                    if isinstance(node, ast.Call) and isinstance(node.func, ast.Name) and node.func.id == 'getattr' and len(node.args) == 3 \
+                            and isinstance(node.args[0], ast.Attribute) and node.args[0].attr in locals_:
+                        n += 1
+                        check.holds(rule, site_of(meth, node), '%s is read with a default (created per thread on first use)' % norm(node)[:50],
+                                    key='%s|thread-local-read|getattr' % meth.key)
                     if isinstance(node, ast.Attribute) and isinstance(node.ctx, ast.Load) and isinstance(node.value, ast.Attribute) \
                             and node.value.attr in locals_ and isinstance(node.value.value, ast.Name):
                         n += 1
